@@ -7,7 +7,23 @@ use std::fmt::Debug;
 /// A struct for coroutines handles local args.
 #[repr(C)]
 #[derive(Debug, Default)]
-pub struct CoroutineLocal<'c>(DashMap<&'c str, usize>);
+pub struct CoroutineLocal<'c>(DashMap<&'c str, (usize, unsafe fn(usize))>);
+
+/// Drop a value stored by `put::<V>`.
+unsafe fn drop_value<V>(ptr: usize) {
+    drop(Box::from_raw((ptr as *mut c_void).cast::<V>()));
+}
+
+impl Drop for CoroutineLocal<'_> {
+    fn drop(&mut self) {
+        // values still stored are dropped with the coroutine
+        for entry in &self.0 {
+            let (ptr, drop_fn) = *entry.value();
+            unsafe { drop_fn(ptr) };
+        }
+        self.0.clear();
+    }
+}
 
 #[allow(clippy::must_use_candidate)]
 impl<'c> CoroutineLocal<'c> {
@@ -15,15 +31,21 @@ impl<'c> CoroutineLocal<'c> {
     pub fn put<V>(&self, key: &'c str, val: V) -> Option<V> {
         let v = Box::leak(Box::new(val));
         self.0
-            .insert(key, std::ptr::from_mut(v) as usize)
-            .map(|ptr| unsafe { *Box::from_raw((ptr as *mut c_void).cast::<V>()) })
+            .insert(
+                key,
+                (
+                    std::ptr::from_mut(v) as usize,
+                    drop_value::<V> as unsafe fn(usize),
+                ),
+            )
+            .map(|(ptr, _)| unsafe { *Box::from_raw((ptr as *mut c_void).cast::<V>()) })
     }
 
     /// Get a value ref from the coroutine local.
     pub fn get<V>(&self, key: &'c str) -> Option<&V> {
         self.0
             .get(key)
-            .map(|ptr| unsafe { &*(*ptr as *mut c_void).cast::<V>() })
+            .map(|entry| unsafe { &*(entry.0 as *mut c_void).cast::<V>() })
     }
 
     /// Get a mut value ref from the coroutine local.
@@ -31,14 +53,14 @@ impl<'c> CoroutineLocal<'c> {
     pub fn get_mut<V>(&self, key: &'c str) -> Option<&mut V> {
         self.0
             .get(key)
-            .map(|ptr| unsafe { &mut *(*ptr as *mut c_void).cast::<V>() })
+            .map(|entry| unsafe { &mut *(entry.0 as *mut c_void).cast::<V>() })
     }
 
     /// Remove a key from the coroutine local.
     pub fn remove<V>(&self, key: &'c str) -> Option<V> {
         self.0
             .remove(key)
-            .map(|ptr| unsafe { *Box::from_raw((ptr.1 as *mut c_void).cast::<V>()) })
+            .map(|(_, (ptr, _))| unsafe { *Box::from_raw((ptr as *mut c_void).cast::<V>()) })
     }
 }
 
